@@ -50,7 +50,7 @@ def tagged_clauses(unit, prop):
     mp = load_json(os.path.join(VERIF, 'gen', unit + '.map.json'), {'lines': [], 'functions': {}})
     seen, out = set(), []
     for e in mp['lines']:
-        if e.get('clause') and prop in e.get('props', []):
+        if e.get('clause') and prop in e.get('props', []) and not e.get('stub'):
             k = (e.get('fn'), e['clause'])
             if k not in seen:
                 seen.add(k); out.append('%s/%s/%s' % (unit, e.get('fn'), e['clause']))
@@ -101,7 +101,7 @@ def main():
     pc = cfg.get(prop, {})
     ledger = load_json(os.path.join(VERIF, 'ledger.json'), {})
     known = load_json(os.path.join(VERIF, 'known_findings.json'), {'findings': []})
-    units = units_for(prop)
+    units = pc.get('units') or units_for(prop)
     if not units:
         print('UNDECIDED property=%s no unit carries a contract for it' % prop)
         return 2
